@@ -31,12 +31,12 @@ CHECKS = {
 # family configuration: exhaustive config, generator config, scenario counts per tier
 FAMILY = {
     "C01": dict(mc="MC_Ledger", gen="MC_GenLedger", quick=240, thorough=2500, drivers=["secret", "configmap", "memory"],
-                sweep=(8, 60), sweep_uninstall=True, extra_gen=["MC_GenLedgerLong.cfg"], gen_depth=1200,
+                sweep=(24, 200), sweep_uninstall=True, extra_gen=["MC_GenLedgerLong.cfg"], gen_depth=1200,
                 enum=["MC_EnumLedger.cfg"], enum_thorough=["MC_EnumLedger4.cfg"]),
     "C02": dict(mc="MC_Cluster", gen="MC_GenCluster", quick=300, thorough=3000, drivers=["secret", "memory", "configmap"],
                 extra_gen=["MC_GenClusterRetry.cfg"], gen_split=True),
     "C03": dict(mc="MC_Fault", gen="MC_GenFault", quick=200, thorough=2000, drivers=["secret", "configmap", "memory"],
-                sweep=(6, 60)),
+                sweep=(40, 400)),
     "C06": dict(mc="MC_Dry", gen="MC_GenDry", quick=200, thorough=2000, drivers=["secret", "memory", "configmap"], cli=2,
                 enum=["MC_EnumDry.cfg"], extra_gen=["MC_GenDryCrash.cfg"], gen_split=True),
     "C07": dict(mc="MC_Own", gen="MC_GenOwn", quick=260, thorough=2000, drivers=["secret", "memory", "configmap"],
@@ -45,7 +45,7 @@ FAMILY = {
                 extra_mc=["MC_ConcDep.cfg", "MC_ConcLim.cfg"], extra_mc_thorough=["MC_ConcFault.cfg"],
                 extra_gen=["MC_GenConcDep.cfg", "MC_GenConc3.cfg", "MC_GenConcFault.cfg"]),
     "C12": dict(mc="MC_Hooks", gen="MC_GenHooks", quick=220, thorough=2500, drivers=["secret", "memory", "configmap"],
-                sweep=(10, 60), enum=["MC_EnumHooks.cfg"]),
+                sweep=(24, 200), sweep_uninstall=True, enum=["MC_EnumHooks.cfg"]),
 }
 
 
@@ -462,7 +462,8 @@ def run(pid, tier, seed, replay=None):
         for sid, evs in traces:
             sc = bysid0[sid]
             ops = [st for st in sc["steps"] if "op" in st]
-            if not ops or any(st.get("fault") or st.get("crash") for st in ops):
+            # (earlier operations of the base may have failed: what they left behind is part of the history)
+            if not ops or ops[-1].get("fault") or any(st.get("crash") for st in ops):
                 continue
             if ops[-1]["op"] == "uninstall" and not fam.get("sweep_uninstall"):
                 continue
@@ -472,7 +473,8 @@ def run(pid, tier, seed, replay=None):
             if not ends or ends[-1]["calls"] < 3:
                 continue
             # one base per distinct (operation, flags, chart, history length): spread the sweep over flag combinations
-            sig = (ops[-1]["op"], ops[-1].get("chart", ""), json.dumps({k: v for k, v in ops[-1]["flags"].items() if v}, sort_keys=True))
+            sig = (ops[-1]["op"], ops[-1].get("chart", ""), json.dumps({k: v for k, v in ops[-1]["flags"].items() if v}, sort_keys=True),
+                   json.dumps([(st["op"], st.get("chart", ""), bool(st.get("fault"))) for st in ops[:-1]]))
             cands.setdefault(sig, []).append((ends[-1]["calls"], sid))
         rnd = random.Random(seed)
         bykind = {}
